@@ -13,20 +13,35 @@ from fractions import Fraction
 from .common import Ctx, Driver, tok
 
 MANIFEST = dict(
-    text=("Lean theorems over the code-mirror of nonwhitespace_re.findall / _replace_cdata_list_attribute_values / "
-          "HTMLAttributeDict+XMLAttributeDict.__setitem__ / Tag.__init__ / handle_starttag: split_tokens + every_string_decomposes "
-          "(the tokens are the maximal whitespace-free runs, for every string, over the generated \\s class), split_join_stable, "
-          "multi_valued_iff_table + kernel-decided presence of the documented entries in the generated table, replace_refines_spec, "
-          "custom_map_exact, others_verbatim, none_disables, html_coercion / xml_coercion (total, incl. 0, 0.0, negatives, digit-limit "
-          "ValueError), containers_hold_no_numbers (invariant over all assignment sequences), dup_policy_replace/ignore/callable, "
-          "parsed_start_tag (end to end). Tie: differential runs of the real bs4 against the compiled model and a direct Python oracle "
-          "over whitespace patterns from the full isspace set, the element x attribute grid around the table (case variants, custom "
-          "maps, None), the value-type grid through both containers / Tag.__setitem__ / new_tag / builder-less tags / copies, and "
-          "generated start tags with 2-4 repeated attributes under every on_duplicate_attribute setting and builder option."),
+    text=("Lean theorems (69, all proved, axioms audited) over a code-mirror of nonwhitespace_re.findall, TreeBuilder option handling and "
+          "_replace_cdata_list_attribute_values, HTMLAttributeDict/XMLAttributeDict.__setitem__, the attribute part of Tag.__init__, "
+          "new_tag, copy_self, handle_starttag's duplicate handling, Tag.get/get_attribute_list/has_attr/__delitem__, and the attribute "
+          "part of _format_tag with Formatter.attributes and quoted_attribute_value. Splitting: split_tokens + every_string_decomposes "
+          "(tokens = maximal whitespace-free runs, every string, generated \\s class), split_is_regex_findall (scanner = the regex "
+          "engine's reading), written_back_and_reread (join/split for every list), split_join_stable. Table: multi_valued_iff_table, "
+          "default_table_every_entry_honoured + multi_valued_only_through_an_entry (the whole generated table, any spelling of the "
+          "element name; str.lower from a generated per-code-point table, = ASCII lowering on ASCII), prefixed_attributes_never_split, "
+          "base_table_splits_nothing (XML-flavoured builders), replace_refines_spec(_any_class), custom_map_exact, others_verbatim, "
+          "none_disables, builder_options_meaning. Containers: html_coercion / xml_coercion (total over the value ADT incl. 0, 0.0, "
+          "negatives, digit-limit ValueError), containers_hold_no_numbers (all assignment sequences). Duplicates: dup_policy_replace/"
+          "ignore/callable over all attribute lists, parsed_start_tag(_ignore/_accumulate/_any_policy/_none) end to end for every "
+          "dictionary/list class, policy_irrelevant_without_repeats, bad_policy_string_fails_iff_repeat. Histories: "
+          "mutate_leaves_others_unchanged, del_leaves_others_unchanged, creation_leaves_earlier_tags_unchanged, "
+          "later_parse_independent_of_history, copy_keeps_container. Reading/output: get_attribute_list_spec/_parsed, del_spec, "
+          "formatter_attributes_spec (permutation, key order, empty->None only under empty_attributes_are_booleans), "
+          "registry_empty_attribute_flags (whole generated registry), format_attribute_spec, quoting_delimits, attribute_string_shape. "
+          "Tie: differential runs of the real bs4 against the compiled model AND a direct Python oracle: exhaustive single separators, "
+          "generated whitespace patterns from the full isspace set, the element x attribute grid around the table (case variants incl. "
+          "non-ASCII, custom maps, None, XML-flavoured builder), the value-type grid through both containers / Tag.__setitem__ / new_tag "
+          "(nsprefix, NamespacedAttribute keys) / builder-less tags / copies, generated and untidy start tags with repeated attributes "
+          "under every on_duplicate_attribute setting, histories with in-place list changes under shared and fresh builders (object "
+          "identity, snapshots, search), every formatter's attribute output, and the accessors."),
     design="7/C17",
-    note=("HTMLAttributeDict is modelled in its documented form (identity test for False/None); the unrepaired membership test "
-          "`value in (False, None)` (element.py:280) drops 0/0.0 and is re-found as a violation until fixes/C17-html-attr-zero.diff is applied. "
-          "str(float) is taken from the runtime (carried in the value), str.lower() from a generated per-code-point table (no final-sigma rule)."),
+    note=("str(float) is taken from the runtime (carried in the value); entity substitution in attribute values is a parameter of the "
+          "output model (identity in the correspondence: formatter=None-like formatters, and named formatters on values that need no "
+          "substitution); str.lower() has no final-sigma rule in the model (U+03A3 not generated); which key object a dictionary retains "
+          "is not modelled (NamespacedAttribute keys in attrs arguments carry string values only); lxml is not installed, so the "
+          "XML-flavoured builder of the streams is html.parser's tokenizer with is_xml=True and the base (empty) table. "),
     technique="Lean 4 proofs over a code-mirror + differential correspondence through a line protocol + direct property oracle",
 )
 
@@ -55,6 +70,15 @@ def _classes():
     return {"plain": AttributeDict, "html": HTMLAttributeDict, "xml": XMLAttributeDict}, {1: AttributeValueList, 2: MyList}
 
 
+def _mystr():
+    global MyStr
+    try:
+        return MyStr
+    except NameError:
+        MyStr = type("MyStr", (str,), {})
+        return MyStr
+
+
 def big_dec(n: int) -> str:
     """decimal numeral of an int of any size (str() of the runtime has a digit limit)"""
     if n < 0:
@@ -73,6 +97,8 @@ def mk(desc):
     t = desc[0]
     if t == "s":
         return desc[1]
+    if t == "S":
+        return _mystr()(desc[1])       # a str subclass: treated as a string everywhere
     if t == "b":
         return bool(desc[1])
     if t == "n":
@@ -110,7 +136,7 @@ def enc_val(v) -> str:
         return "s:" + tok(v)
     if isinstance(v, list):
         cls = 0 if type(v) is list else (1 if type(v) is lc[1] else 2 if type(v) is lc[2] else 9)
-        return f"l:{cls}:" + "/".join(tok(x) for x in v)
+        return f"l:{cls}:" + "/".join(tok(x) if isinstance(x, str) else "?" + type(x).__name__ for x in v)
     for i, (_, o) in enumerate(OTHERS):
         if v is o or (type(v) is type(o) and v == o):
             eqf = 0
@@ -134,6 +160,15 @@ def mk_key(kd):
     if kd[0] == "p":
         return kd[1]
     return NamespacedAttribute(kd[1], kd[2])
+
+
+def key_obj(k):
+    """a key of an attrs argument: a plain str, or a key descriptor (NamespacedAttribute)"""
+    return k if isinstance(k, str) else mk_key(k)
+
+
+def key_str(k) -> str:
+    return str(key_obj(k))
 
 
 def enc_key(kd) -> str:
@@ -216,7 +251,8 @@ def canon_model_tag(reply: str) -> str:
 
 
 def show_tag(tag) -> str:
-    return f"ok {cls_name(tag.attrs)} {lcls_id(tag.attribute_value_list_class)} {enc_items(tag.attrs)} R {observe_render(tag)}"
+    return (f"ok {cls_name(tag.attrs)} {lcls_id(tag.attribute_value_list_class)} x{1 if tag.known_xml else 0} "
+            f"{enc_items(tag.attrs)} R {observe_render(tag)}")
 
 
 SAFE = set("abcdefghijklmnopqrstuvwxyzABCDEFGHIJKLMNOPQRSTUVWXYZ0123456789-_.:+ ")
@@ -241,7 +277,7 @@ def default_decode_check(tag):
         if not set(s) <= SAFE or not set(str(k)) <= SAFE:
             return None
         parts.append(f' {k}="{s}"')
-    want = "<" + tag.name + "".join(parts)
+    want = "<" + (tag.prefix + ":" if tag.prefix else "") + tag.name + "".join(parts)
     try:
         got = tag.decode()
     except Exception as e:  # pragma: no cover
@@ -273,17 +309,20 @@ def cb_upper(attrs, key, value):
     attrs[key] = value + "!"
 
 
-ONDUP = {"absent": None, "replace": "replace", "None": None, "ignore": "ignore", "accumulate": accumulate,
+ONDUP = {"absent": None, "replace": "replace", "None": None, "ignore": "ignore", "Replace": "Replace", "keep": "keep",
+         "accumulate": accumulate,
          "noop": cb_noop, "drop": cb_drop, "upper": cb_upper}
-ONDUP_MODEL = {"absent": "replace", "replace": "replace", "None": "replace", "ignore": "ignore",
-               "accumulate": "accumulate", "noop": "noop", "drop": "drop", "upper": "upper"}
+ONDUP_MODEL = {"absent": "absent", "replace": "replace", "None": "None", "ignore": "ignore", "Replace": "Replace",
+               "keep": "keep", "accumulate": "cb:accumulate", "noop": "cb:noop", "drop": "cb:drop", "upper": "cb:upper"}
 
 
 def builder_kwargs(cfg):
     dc, lc = _classes()
     kw = {}
     if cfg["mva"] != "default":
-        kw["multi_valued_attributes"] = None if cfg["mva"] is None else {k: set(v) for k, v in cfg["mva"]}
+        # the attribute collections in several legal forms (set, frozenset, list, tuple): only membership is needed
+        forms = (set, frozenset, list, tuple)
+        kw["multi_valued_attributes"] = None if cfg["mva"] is None else {k: forms[(len(k) + len(v)) % 4](v) for k, v in cfg["mva"]}
     if cfg.get("dcls", "absent") != "absent":
         kw["attribute_dict_class"] = dc[cfg["dcls"]]
     if cfg.get("lcls", 0) != 0:
@@ -294,14 +333,51 @@ def builder_kwargs(cfg):
     return kw
 
 
+_XMLISH = None
+
+
+def xmlish_builder_class():
+    """An XML-flavoured builder that can run here (lxml is not installed): html.parser's tokenizer, but `is_xml = True`
+    and no multi-valued table of its own, i.e. the base TreeBuilder default, as bs4's XML builders have."""
+    global _XMLISH
+    if _XMLISH is None:
+        from bs4.builder import TreeBuilder
+        from bs4.builder._htmlparser import HTMLParserTreeBuilder
+        _XMLISH = type("XmlishBuilder", (HTMLParserTreeBuilder,), {
+            "is_xml": True, "NAME": "xmlish", "features": ["xmlish"], "ALTERNATE_NAMES": [],
+            "DEFAULT_CDATA_LIST_ATTRIBUTES": TreeBuilder.DEFAULT_CDATA_LIST_ATTRIBUTES})
+    return _XMLISH
+
+
+def make_builder(cfg):
+    from bs4.builder._htmlparser import HTMLParserTreeBuilder
+    cls = xmlish_builder_class() if cfg.get("xml") else HTMLParserTreeBuilder
+    return cls(**builder_kwargs(cfg))
+
+
+def make_soup(markup, cfg, shared=None):
+    """the documented route (`BeautifulSoup(markup, "html.parser", **options)`) for the HTML flavour, a builder object for
+    a shared builder or the XML flavour"""
+    from bs4 import BeautifulSoup
+    with warnings.catch_warnings():
+        warnings.simplefilter("ignore")
+        if shared is not None:
+            return BeautifulSoup(markup, builder=shared)
+        if cfg.get("xml"):
+            return BeautifulSoup(markup, builder=make_builder(cfg))
+        return BeautifulSoup(markup, "html.parser", **builder_kwargs(cfg))
+
+
 def cfg_model(cfg):
-    d = cfg.get("dcls", "absent")
-    return enc_map(cfg["mva"]), ("plain" if d == "absent" else d), str(cfg.get("lcls", 0) or 1)
+    """the builder options as given (the model's mkBuilder resolves the defaults)"""
+    return (enc_map(cfg["mva"]), cfg.get("dcls", "absent"), str(cfg.get("lcls", 0) or 0) + ("x" if cfg.get("xml") else ""))
 
 
 def live_table(cfg):
     """the map in force, as a dict name -> set (None when disabled)"""
     if cfg["mva"] == "default":
+        if cfg.get("xml"):
+            return xmlish_builder_class().DEFAULT_CDATA_LIST_ATTRIBUTES
         from bs4.builder import HTMLParserTreeBuilder
         return HTMLParserTreeBuilder.DEFAULT_CDATA_LIST_ATTRIBUTES
     if cfg["mva"] is None:
@@ -371,6 +447,10 @@ def oracle_render(d) -> str:
 
 def oracle(case) -> str:
     kind = case["kind"]
+    if kind == "format":
+        return oracle_format(case)
+    if kind == "access":
+        return oracle_access(case)
     if kind == "history":
         states = simulate_history(case)[1]
         return " ## ".join(states[-1]) if states and states[-1] else "-"
@@ -398,6 +478,8 @@ def oracle(case) -> str:
                     continue
                 if pol in ("absent", "replace", "None"):
                     d[k] = v            # the last one survives, at the position of the first
+                elif isinstance(ONDUP[pol], str):
+                    return "raised TypeError"       # a string that is no policy cannot decide anything
                 else:
                     ONDUP[pol](d, k, v)
             else:
@@ -405,24 +487,32 @@ def oracle(case) -> str:
         lcls = cfg.get("lcls", 0) or 1
         oracle_multi(live_table(cfg), case["name"], d, lcls)
         dcls = cfg.get("dcls", "absent")
-        return f"ok {'plain' if dcls == 'absent' else dcls} {lcls} {enc_items(d)} R {oracle_render(d)}"
+        return f"ok {'plain' if dcls == 'absent' else dcls} {lcls} x{1 if cfg.get('xml') else 0} {enc_items(d)} R {oracle_render(d)}"
     if kind == "tag":
         cfg = case["cfg"]
         if cfg is None:
             cls = "xml" if case["isxml"] else "html"
             lcls = 1
+            x = 1 if case["isxml"] else 0
         else:
             dcls = cfg.get("dcls", "absent")
             cls = "plain" if dcls == "absent" else dcls
             lcls = cfg.get("lcls", 0) or 1
+            x = 1 if cfg.get("xml") else 0
         d = {}
         try:
-            if case["attrs"] is not None:
+            if case.get("via") == "copy":
+                # a copy holds the original's values in the same kind of dictionary (lists in new lists), assigned
+                # through that dictionary's own rules; it keeps is_xml and gets the default list class
+                cls = case["acls"]
+                for k, vd in case["attrs"]:
+                    oracle_store(cls, d, key_str(k), _copy_val(mk(vd)))
+            elif case["attrs"] is not None:
                 table = live_table(cfg) if cfg is not None else None
                 if table:
                     # the dictionary passed in is kept; covered string values are split; assignments go through its class
                     acls = case["acls"]
-                    d = {k: mk(vd) for k, vd in case["attrs"]}
+                    d = {key_str(k): mk(vd) for k, vd in case["attrs"]}
                     for k in list(d):
                         if covered(table, case["name"], k):
                             v = d[k]
@@ -432,12 +522,12 @@ def oracle(case) -> str:
                     cls = acls
                 else:
                     for k, vd in case["attrs"]:
-                        oracle_store(cls, d, k, mk(vd))
+                        oracle_store(cls, d, key_str(k), mk(vd))
             for kd, vd in case["sets"]:
                 oracle_store(cls, d, mk_key(kd), mk(vd))
         except ValueError:
             return "valueError"
-        return f"ok {cls} {lcls} {enc_items(d)} R {oracle_render(d)}"
+        return f"ok {cls} {lcls} x{x} {enc_items(d)} R {oracle_render(d)}"
     raise ValueError(kind)
 
 
@@ -482,12 +572,16 @@ def execute(case):
     extra = []
     if kind == "history":
         return exec_history(case)
+    if kind == "format":
+        return exec_format(case)
+    if kind == "access":
+        return exec_access(case)
     if kind == "split":
         r = nonwhitespace_re.findall(case["s"])
         return ("/".join(tok(t) for t in r) if r else "-"), extra
     if kind == "multi":
         cfg = case["cfg"]
-        soup = BeautifulSoup("", "html.parser", **builder_kwargs(cfg))
+        soup = make_soup("", cfg)
         attrs = dc["plain"]()
         dict.__setitem__(attrs, case["attr"], "a b")
         out = soup.builder._replace_cdata_list_attribute_values(case["tag"], attrs)
@@ -512,9 +606,7 @@ def execute(case):
         cfg = case["cfg"]
         install_spy()
         _spy_log.clear()
-        with warnings.catch_warnings():
-            warnings.simplefilter("ignore")
-            soup = BeautifulSoup(case["markup"], "html.parser", **builder_kwargs(cfg))
+        soup = make_soup(case["markup"], cfg)
         tag = soup.find(True)
         seen = _spy_log[0] if _spy_log else None
         case["_seen"] = seen
@@ -538,20 +630,21 @@ def execute(case):
                 if case["attrs"] is not None:
                     attrs = dc[case["acls"]]()
                     for k, vd in case["attrs"]:
-                        dict.__setitem__(attrs, k, mk(vd))
+                        dict.__setitem__(attrs, key_obj(k), mk(vd))
                 if case.get("via") == "copy":
-                    # a tag holding `attrs` in a plain dictionary, copied: Tag.copy_self -> Tag(None, None, ..., attrs=...)
+                    # a tag holding `attrs` (raw, in a dictionary of class acls), copied with Tag.copy_self
                     src = Tag(name=case["name"], is_xml=case["isxml"])
                     src.attrs = attrs if attrs is not None else dc["plain"]()
                     tag = copy.copy(src)
                 else:
                     tag = Tag(name=case["name"], is_xml=case["isxml"], attrs=attrs)
             else:
-                soup = BeautifulSoup("", "html.parser", **builder_kwargs(cfg))
+                soup = make_soup("", cfg)
+                extra_kw = {"nsprefix": case["nsprefix"]} if case.get("nsprefix") else {}
                 if case["attrs"] is None:
-                    tag = soup.new_tag(case["name"])
+                    tag = soup.new_tag(case["name"], **extra_kw)
                 else:
-                    tag = soup.new_tag(case["name"], attrs={k: mk(vd) for k, vd in case["attrs"]})
+                    tag = soup.new_tag(case["name"], attrs={key_obj(k): mk(vd) for k, vd in case["attrs"]}, **extra_kw)
             for kd, vd in case["sets"]:
                 tag[mk_key(kd)] = mk(vd)
         except ValueError:
@@ -568,6 +661,10 @@ def model_line(case) -> str:
     kind = case["kind"]
     if kind == "history":
         return history_line(case)
+    if kind == "format":
+        return format_line(case)
+    if kind == "access":
+        return access_line(case)
     if kind == "split":
         return "c17 split " + tok(case["s"])
     if kind == "multi":
@@ -580,6 +677,10 @@ def model_line(case) -> str:
         name, attrs = case["name"], case["attrs"]
         raw = "&".join(f"{tok(k)}={'~' if v is None else tok(v)}" for k, v in attrs) or "-"
         return f"c17 parse {m} {d} {l} {ONDUP_MODEL[case['cfg'].get('ondup', 'absent')]} {tok(name)} {raw}"
+    if kind == "tag" and case.get("via") == "copy":
+        items = "&".join(f"{tok(key_str(k))}={enc_val(mk(vd))}" for k, vd in case["attrs"]) or "-"
+        sets = "&".join(f"{enc_key(kd)}={enc_val(mk(vd))}" for kd, vd in case["sets"]) or "-"
+        return f"c17 copy {case['acls']} 1 {1 if case['isxml'] else 0} {tok(case['name'])} {items} {sets}"
     if kind == "tag":
         cfg = case["cfg"]
         if cfg is None:
@@ -590,7 +691,7 @@ def model_line(case) -> str:
         if case["attrs"] is None:
             attrs = "~"
         else:
-            items = "&".join(f"{tok(k)}={enc_val(mk(vd))}" for k, vd in case["attrs"]) or "-"
+            items = "&".join(f"{tok(key_str(k))}={enc_val(mk(vd))}" for k, vd in case["attrs"]) or "-"
             attrs = f"{case['acls']}@{items}"
         sets = "&".join(f"{enc_key(kd)}={enc_val(mk(vd))}" for kd, vd in case["sets"]) or "-"
         return f"c17 tag {b} {m} {d} {l} {1 if case['isxml'] else 0} {tok(case['name'])} {attrs} {sets}"
@@ -598,6 +699,8 @@ def model_line(case) -> str:
 
 
 def canon_model(case, reply):
+    if case["kind"] == "format":
+        return canon_format_reply(reply)
     return canon_model_tag(reply) if case["kind"] in ("parse", "tag") else reply
 
 
@@ -610,7 +713,7 @@ LOOKALIKES = [0x200B, 0x200C, 0x200D, 0x2060, 0xFEFF, 0x180E, 0x00AD, 0x034F, 0x
 TOKCH = "abcxyzAZ09-_.:+"
 
 VALUE_GRID = (
-    [("s", s) for s in ["", "x", "a b", " a  b ", "0", "False", "k"]]
+    [("s", s) for s in ["", "x", "a b", " a  b ", "0", "False", "k"]] + [("S", " p  q "), ("S", "")]
     + [("b", True), ("b", False), ("n",)]
     + [("i", d) for d in ["0", "1", "-1", "7", "-12", "255", "E30", "-E30", "E4299", "E4300", "-E4300", "-E4299"]]
     + [("f", d) for d in ["0.0", "-0.0", "1.5", "-2.25", "1e300", "1e-07", "inf", "-inf", "nan", "3.0"]]
@@ -682,6 +785,7 @@ CUSTOM_MAPS = [
     [("*", []), ("a", [])],
     [("a", ["class"]), ("*", ["rel"])],
     [("", ["x"]), ("div", [""])],
+    [("straße", ["class"]), ("é", ["rel"]), ("ǆ", ["id"])],     # non-ASCII keys: str.lower, not casefold / ASCII lowering
 ]
 
 
@@ -689,14 +793,16 @@ def gen_cfg(r, allow_ondup=True):
     mva = r.choice(["default", "default", "default", None] + CUSTOM_MAPS)
     cfg = {"mva": mva, "dcls": r.choice(["absent", "absent", "plain", "html", "xml"]), "lcls": r.choice([0, 0, 1, 2])}
     if allow_ondup:
-        cfg["ondup"] = r.choice(["absent", "replace", "None", "ignore", "accumulate", "noop", "drop", "upper"])
+        cfg["ondup"] = r.choice(["absent", "replace", "None", "ignore", "accumulate", "noop", "drop", "upper", "Replace", "keep"])
+    if r.random() < 0.15:
+        cfg["xml"] = True      # XML-flavoured builder (is_xml, the empty base table unless a map is given)
     return cfg
 
 
 def gen_parse_case(r, dup=True):
     t, tags, attrs = table_names()
-    name = r.choice(tags + ["p", "div", "span", "tr", "x-y", "b"])
-    apool = attrs + ["id", "href", "title", "data-x", "style"]
+    name = r.choice(tags + ["p", "div", "span", "tr", "x-y", "b", "svg:a", "x:td", "svg:svg"])
+    apool = attrs + ["id", "href", "title", "data-x", "style", "xlink:href", "xml:lang", "svg:class", "x:rel"]
     n = r.randint(1, 4)
     names = [r.choice(apool) for _ in range(n)]
     if dup and r.random() < 0.7:
@@ -768,12 +874,19 @@ def gen_tag_case(r):
         cfg = gen_cfg(r, allow_ondup=False)
         dcls = cfg["dcls"]
         acls = "plain" if dcls == "absent" else dcls
-        return {"kind": "tag", "cfg": cfg, "isxml": False, "name": name, "attrs": pre, "acls": acls, "sets": sets}
+        c = {"kind": "tag", "cfg": cfg, "isxml": False, "name": name, "attrs": pre, "acls": acls, "sets": sets}
+        if r.random() < 0.3:
+            c["nsprefix"] = r.choice(["svg", "x"])       # the prefix is not part of tag.name: the table lookup ignores it
+        if pre is not None and r.random() < 0.4:
+            # NamespacedAttribute keys, as an XML builder would deliver them
+            nk = r.choice([["q", "xlink", "href"], ["q", None, "class"], ["q", "svg", "class"], ["q", "", "rel"], ["q", "xml", "lang"]])
+            if key_str(nk) not in [key_str(k) for k, _ in pre]:
+                pre.append([nk, ["s", gen_ws_string(r, exotic=False)]])      # string values, as a parser delivers them
+        return c
     c = {"kind": "tag", "cfg": None, "isxml": r.random() < 0.4, "name": name, "attrs": pre,
          "acls": r.choice(["plain", "plain", "html", "xml"]), "sets": sets}
     if mode == "copy":
         c["via"] = "copy"
-        c["acls"] = "plain"
         if pre is None:
             c["attrs"] = []
     return c
@@ -802,7 +915,7 @@ def doc_markup(tags):
 
 
 def _otag_canon(t) -> str:
-    return f"{tok(t['name'])} ok {t['cls']} {t['lcls']} {enc_items(t['attrs'])} R {oracle_render(t['attrs'])}"
+    return f"{tok(t['name'])} ok {t['cls']} {t['lcls']} x{t['x']} {enc_items(t['attrs'])} R {oracle_render(t['attrs'])}"
 
 
 def _copy_val(v):
@@ -840,6 +953,7 @@ def simulate_history(case):
     dcls = cfg.get("dcls", "absent")
     dcls = "plain" if dcls == "absent" else dcls
     lcls = cfg.get("lcls", 0) or 1
+    bx = 1 if cfg.get("xml") else 0
     _, lc = _classes()
     tags, valid, states, msteps = [], [], [], []
     for st in case["steps"]:
@@ -850,14 +964,14 @@ def simulate_history(case):
                 for k, v in attrs:
                     d[k] = "" if v is None else v          # replace policy: last value, first position
                 oracle_multi(table, name, d, lcls)
-                tags.append({"name": name, "cls": dcls, "lcls": lcls, "attrs": d})
+                tags.append({"name": name, "cls": dcls, "lcls": lcls, "x": bx, "attrs": d})
                 raw = "&".join(f"{tok(k)}={'~' if v is None else tok(v)}" for k, v in attrs) or "-"
                 msteps.append(f"P!{tok(name)}!{raw}")
         elif st[0] == "new":
             name, attrs = st[1], st[2]
             d = {k: v for k, v in attrs}
             oracle_multi(table, name, d, lcls)
-            tags.append({"name": name, "cls": dcls, "lcls": lcls, "attrs": d})
+            tags.append({"name": name, "cls": dcls, "lcls": lcls, "x": bx, "attrs": d})
             items = "&".join(f"{tok(k)}={enc_val(v)}" for k, v in attrs) or "-"
             msteps.append(f"N!{tok(name)}!{items}")
         elif st[0] == "copy":
@@ -866,9 +980,10 @@ def simulate_history(case):
                 ok = False
             else:
                 d = {}
+                ccls = tags[i]["cls"]      # a copy holds the same kind of dictionary as the original
                 for k, v in tags[i]["attrs"].items():
-                    oracle_store("html", d, k, _copy_val(v))
-                tags.append({"name": tags[i]["name"], "cls": "html", "lcls": 1, "attrs": d})
+                    oracle_store(ccls, d, k, _copy_val(v))
+                tags.append({"name": tags[i]["name"], "cls": ccls, "lcls": 1, "x": tags[i]["x"], "attrs": d})
                 msteps.append(f"C!{i}")
         elif st[0] == "mut":
             _, i, key, op, arg = st
@@ -886,6 +1001,26 @@ def simulate_history(case):
             else:
                 oracle_store(tags[i]["cls"], tags[i]["attrs"], mk_key(kd), mk(vd))
                 msteps.append(f"S!{i}!{enc_key(kd)}={enc_val(mk(vd))}")
+        elif st[0] == "del":
+            _, i, key = st
+            if i >= len(tags):
+                ok = False
+            else:
+                tags[i]["attrs"].pop(key, None)          # deleting a missing attribute is not an error
+                msteps.append(f"D!{i}!{tok(key)}")
+        elif st[0] == "ctor":
+            _, i, isx = st
+            if i >= len(tags):
+                ok = False
+            else:
+                # Tag(name=…, attrs=other.attrs, is_xml=…): a builder-less tag, HTML/XML container by is_xml, the values
+                # assigned through it, lists in new lists
+                ccls = "xml" if isx else "html"
+                d = {}
+                for k, v in tags[i]["attrs"].items():
+                    oracle_store(ccls, d, k, _copy_val(v))
+                tags.append({"name": tags[i]["name"], "cls": ccls, "lcls": 1, "x": 1 if isx else 0, "attrs": d})
+                msteps.append(f"T!{i}!{1 if isx else 0}")
         valid.append(ok)
         states.append([_otag_canon(t) for t in tags])
     return valid, states, msteps, tags
@@ -905,7 +1040,7 @@ def exec_history(case):
     cfg = case["cfg"]
     kw = builder_kwargs(cfg)
     valid, states = simulate_history(case)[:2]
-    shared = HTMLParserTreeBuilder(**kw) if case["reuse"] else None
+    shared = make_builder(cfg) if case["reuse"] else None
     install_spy()
     soups, tags, owner, extra = [], [], [], []
 
@@ -927,10 +1062,7 @@ def exec_history(case):
             continue
         if st[0] == "doc":
             _spy_log.clear()
-            with warnings.catch_warnings():
-                warnings.simplefilter("ignore")
-                soup = BeautifulSoup(doc_markup(st[1]), builder=shared) if shared is not None else \
-                    BeautifulSoup(doc_markup(st[1]), "html.parser", **kw)
+            soup = make_soup(doc_markup(st[1]), cfg, shared)
             found = soup.find_all(True)
             want = [(nm, [(k, v) for k, v in al]) for nm, al in st[1]]
             if [(a, list(b)) for a, b in _spy_log] != want or len(found) != len(want):
@@ -945,6 +1077,10 @@ def exec_history(case):
             owner.append(None)
         elif st[0] == "copy":
             tags.append(copy.copy(tags[st[1]]))
+            owner.append(None)
+        elif st[0] == "ctor":
+            from bs4.element import Tag
+            tags.append(Tag(name=tags[st[1]].name, attrs=tags[st[1]].attrs, is_xml=bool(st[2])))
             owner.append(None)
         elif st[0] == "mut":
             _, i, key, op, arg = st
@@ -973,6 +1109,16 @@ def exec_history(case):
         elif st[0] == "set":
             _, i, kd, vd = st
             tags[i][mk_key(kd)] = mk(vd)
+        elif st[0] == "del":
+            before = real_state()
+            del tags[st[1]][st[2]]
+            after = real_state()
+            for j, (b, a) in enumerate(zip(before, after)):
+                if j != st[1] and a != b:
+                    extra.append(("deleting one tag's attribute changed another tag", f"step {n}: tag {j} stays {b}", f"tag {j} is now {a}"))
+                    break
+            if tags[st[1]].has_attr(st[2]):
+                extra.append(("del tag[key] leaves the attribute in place", f"step {n}: no {st[2]!r}", "has_attr is still true"))
         al = aliasing()
         if al and not any("share one list object" in e[0] for e in extra):
             extra.append(("two attributes share one list object (each attribute must own the list of its own tokens)",
@@ -1035,6 +1181,9 @@ def gen_history_case(r):
              ("th", "headers"), ("span", "accesskey"), ("td", "class"), ("p", "id"), ("a", "href"), ("p", "title")]
     mva = r.choice(["default"] * 6 + [None, [("*", ["id", "class"])], [("p", ["class", "title"]), ("a", ["href"])]])
     cfg = {"mva": mva, "dcls": r.choice(["absent", "absent", "plain", "html", "xml"]), "lcls": r.choice([0, 0, 1, 2])}
+    if r.random() < 0.2:
+        cfg["xml"] = True          # XML-flavoured builder: is_xml, no table of its own (mva "default" = the empty base table)
+        cfg["mva"] = r.choice(["default", [("*", ["class"])], [("p", ["class", "title"]), ("a", ["rel"])]])
 
     def a_tag():
         name, key = r.choice(pairs)
@@ -1072,10 +1221,13 @@ def gen_history_case(r):
             name, key = r.choice(pairs)
             steps.append(["new", name, [[key, r.choice(pool)]]])
             tagkeys.append([key])
-        elif x < 0.92:
+        elif x < 0.9:
             i = r.randrange(len(tagkeys))
-            steps.append(["copy", i])
+            steps.append(["copy", i] if r.random() < 0.6 else ["ctor", i, r.random() < 0.3])
             tagkeys.append(list(tagkeys[i]))
+        elif x < 0.95:
+            i = r.randrange(len(tagkeys))
+            steps.append(["del", i, r.choice(tagkeys[i] + ["class", "nope"])])
         else:
             vd = r.choice([["s", r.choice(pool)], ["l", 0, ["q", "r"]], ["b", True], ["n"], ["i", "0"], ["i", "7"], ["l", 1, []]])
             i = r.randrange(len(tagkeys))
@@ -1106,6 +1258,201 @@ def directed_history_cases():
     return out
 
 
+# --------------------------------------------------------------------------------------
+# output of the attribute part of a tag; reading and deleting attributes
+# --------------------------------------------------------------------------------------
+
+FORMATTERS = ["id0", "id1", "None", "minimal", "html", "html5", "html5-4.12"]
+
+
+def _tag_holding(case):
+    """a builder-less tag whose dictionary holds exactly the given (key, value) pairs (stored without coercion)"""
+    from bs4.element import Tag
+    dc, lc = _classes()
+    t = Tag(name=case.get("name", "a"), is_xml=bool(case.get("isxml")))
+    d = dc[case.get("acls", "plain")]()
+    for k, vd in case["items"]:
+        dict.__setitem__(d, key_obj(k), mk(vd))
+    t.attrs = d
+    if case.get("lcls"):
+        t.attribute_value_list_class = lc[case["lcls"]]
+    return t
+
+
+def _formatter_for(case, tag):
+    from bs4.formatter import HTMLFormatter
+    f = case["fmt"]
+    if f in ("id0", "id1"):
+        return HTMLFormatter(entity_substitution=None, empty_attributes_are_booleans=(f == "id1"))
+    return tag.formatter_for_name(None if f == "None" else f)
+
+
+def _attr_string_of(out, name):
+    """the text between `<name` and the end of the start tag of an element without contents"""
+    assert out.startswith("<" + name), out
+    body = out[len(name) + 1:]
+    for tail in (f"></{name}>", "/>", ">"):
+        if body.endswith(tail):
+            return body[:-len(tail)]
+    return body
+
+
+def exec_format(case):
+    tag = _tag_holding(case)
+    fm = _formatter_for(case, tag)
+    try:
+        out = tag.decode(formatter=fm)
+    except ValueError:
+        return "valueError", []
+    return "ok " + tok(_attr_string_of(out, tag.name)), []
+
+
+def oracle_format(case):
+    """the documented attribute string, written independently: attributes in key order, None (and "" for a formatter
+    with empty_attributes_are_booleans) as the bare key, lists joined by single spaces, other values by str(); double
+    quotes unless the text has a double quote and no single quote; with both, the double quotes as &quot;"""
+    tag = _tag_holding(case)
+    eb = _formatter_for(case, tag).empty_attributes_are_booleans
+    parts = []
+    try:
+        for k, v in sorted(tag.attrs.items(), key=lambda kv: str(kv[0])):
+            if v is None or (eb and isinstance(v, str) and v == ""):
+                parts.append(str(k))
+                continue
+            text = " ".join(v) if isinstance(v, list) else v if isinstance(v, str) else str(v)
+            if '"' in text and "'" in text:
+                q = '"' + text.replace('"', "&quot;") + '"'
+            elif '"' in text:
+                q = "'" + text + "'"
+            else:
+                q = '"' + text + '"'
+            parts.append(f"{k}={q}")
+    except ValueError:
+        return "valueError"
+    return "ok " + tok("".join(" " + p for p in parts))
+
+
+def format_line(case):
+    tag = _tag_holding(case)
+    eb = _formatter_for(case, tag).empty_attributes_are_booleans     # the registry flag is generated into Lean too
+    items = "&".join(f"{tok(key_str(k))}={enc_val(mk(vd))}" for k, vd in case["items"]) or "-"
+    return f"c17 fmt {1 if eb else 0} {items}"
+
+
+def canon_format_reply(rep):
+    """the model writes str() of an opaque object as one private-use code point"""
+    if not rep.startswith("ok "):
+        return rep
+    cpsl = [] if rep[3:] == "-" else rep[3:].split(",")
+    out = []
+    for c in cpsl:
+        n = int(c)
+        if 0xE000 <= n < 0xE000 + len(OTHERS):
+            out += [str(ord(ch)) for ch in str(OTHERS[n - 0xE000][1])]
+        else:
+            out.append(c)
+    return "ok " + (",".join(out) if out else "-")
+
+
+FMT_SAFE_STRS = ["", "x", "a b", " a  b ", "0", "it's", 'say "hi"', "both \" and '", "'", '"', "q'\"'q"]
+FMT_KEYS = ["id", "class", "Z", "a", "href", "data-x", "xml:lang", "é", "ab", "aB", "_x", ["q", "xlink", "href"],
+            ["q", "xmlns", None], ["q", None, "class"], "10", "9"]
+
+
+def gen_format_case(r):
+    ks = r.sample(FMT_KEYS, r.randint(0, 5))
+    seen, items = set(), []
+    for k in ks:
+        if key_str(k) in seen:
+            continue
+        seen.add(key_str(k))
+        x = r.random()
+        if x < 0.45:
+            vd = ["s", r.choice(FMT_SAFE_STRS)]
+        elif x < 0.7:
+            vd = ["l", r.choice([0, 1, 2]), [r.choice(["a", "b", "it's", 'q"', "", "x y"]) for _ in range(r.randint(0, 3))]]
+        else:
+            vd = list(r.choice(LIGHT_GRID))
+        items.append([k, vd])
+    fmt = r.choice(FORMATTERS)
+    return {"kind": "format", "fmt": fmt, "isxml": fmt in ("minimal", "html", "None") and r.random() < 0.3,
+            "name": r.choice(["a", "p", "x-y"]), "items": items}
+
+
+def exec_access(case):
+    tag = _tag_holding(case)
+
+    def probe(k):
+        try:
+            gi = enc_val(tag[k])
+        except KeyError:
+            gi = "KeyError"
+        def al(v):
+            if not isinstance(v, list):
+                return "notalist:" + repr(v)
+            c = 0 if type(v) is list else lcls_id(type(v))
+            if all(isinstance(x, str) for x in v):
+                return f"l:{c}:" + "/".join(tok(x) for x in v)
+            return f"L:{c}:" + enc_val(v[0])
+        return (f"{tok(k)} h{1 if tag.has_attr(k) else 0} g={enc_val(tag.get(k))} gd={enc_val(tag.get(k, 'd'))} "
+                f"a={al(tag.get_attribute_list(k))} ad={al(tag.get_attribute_list(k, ['d']))} i={gi}")
+
+    first = " | ".join(probe(k) for k in case["probes"])
+    for k in case["dels"]:
+        del tag[k]
+    return first + " || " + enc_items(tag.attrs) + " || " + " | ".join(probe(k) for k in case["probes"]), []
+
+
+def oracle_access(case):
+    """the documented meaning of has_attr / get / get_attribute_list / tag[key] / del over an ordinary dict"""
+    d = {key_str(k): mk(vd) for k, vd in case["items"]}
+    lcls = case.get("lcls") or 1
+
+    def probe(k):
+        def al(v):
+            if v is None:
+                return f"l:{lcls}:"
+            if isinstance(v, list):
+                c = 0 if type(v) is list else lcls_id(type(v))
+                return f"l:{c}:" + "/".join(tok(x) for x in v)
+            if isinstance(v, str):
+                return f"l:{lcls}:{tok(v)}"
+            return f"L:{lcls}:{enc_val(v)}"
+        has = k in d
+        return (f"{tok(k)} h{1 if has else 0} g={enc_val(d.get(k))} gd={enc_val(d.get(k, 'd'))} "
+                f"a={al(d.get(k))} ad={al(d.get(k, ['d']))} i={enc_val(d[k]) if has else 'KeyError'}")
+
+    first = " | ".join(probe(k) for k in case["probes"])
+    for k in case["dels"]:
+        d.pop(k, None)
+    return first + " || " + enc_items(d) + " || " + " | ".join(probe(k) for k in case["probes"])
+
+
+def access_line(case):
+    items = "&".join(f"{tok(key_str(k))}={enc_val(mk(vd))}" for k, vd in case["items"]) or "-"
+    pr = ";".join(tok(k) for k in case["probes"]) or "-"
+    dl = ";".join(tok(k) for k in case["dels"]) or "-"
+    return f"c17 acc {case.get('acls', 'plain')} {case.get('lcls') or 1} {items} {pr} {dl}"
+
+
+def gen_access_case(r):
+    ks = r.sample(["id", "class", "rel", "k", "xml:lang", ["q", "xlink", "href"], ["q", None, "class"], "x"], r.randint(0, 4))
+    seen, items = set(), []
+    for k in ks:
+        if key_str(k) in seen:
+            continue
+        seen.add(key_str(k))
+        items.append([k, pick_value(r) if r.random() < 0.6 else ["l", r.choice([0, 1, 2]), [r.choice(["a", "b", ""]) for _ in range(r.randint(0, 3))]]])
+    pool = [key_str(k) for k, _ in items] + ["missing", "class", "id"]
+    probes = []
+    for _ in range(r.randint(1, 4)):
+        k = r.choice(pool)
+        if k not in probes:
+            probes.append(k)
+    return {"kind": "access", "acls": r.choice(["plain", "html", "xml"]), "lcls": r.choice([0, 1, 2]), "items": items,
+            "probes": probes, "dels": [r.choice(pool) for _ in range(r.randint(0, 2))]}
+
+
 def zero_defect_class(case, observed, expected):
     """Does this failing case fall into the class `a number equal to False assigned through HTMLAttributeDict`?
     (Only used to word the report; the defect is marked "fix", not a known finding, so nothing is suppressed.)"""
@@ -1122,6 +1469,11 @@ def zero_defect_class(case, observed, expected):
     return any(zeroish(vd) for vd in vals)
 
 
+def known_finding_class(case, observed, expected):
+    """Classifier for recorded findings (computed from the case itself). None are recorded for C17 at present."""
+    return None
+
+
 def nontrivial_key(case):
     k = case["kind"]
     if k == "split":
@@ -1132,6 +1484,8 @@ def nontrivial_key(case):
         return ("dict", case["cls"], json.dumps(case["sets"]))
     if k == "parse":
         return ("parse", json.dumps(case["cfg"]), case["markup"])
+    if k in ("format", "access"):
+        return (k, json.dumps(case, sort_keys=True, default=str)) if case["items"] else None
     if k == "history":
         return ("history", json.dumps(case, sort_keys=True, default=str)) if any(st[0] == "mut" for st in case["steps"]) else None
     return ("tag", json.dumps(case, sort_keys=True, default=str))
@@ -1144,7 +1498,8 @@ def check_cases(ctx: Ctx, stream: str, cases: list):
         try:
             o, e = execute(c)
         except Exception as ex:      # an exception the property does not provide for is an observation, not a harness error
-            o, e = f"raised {type(ex).__name__}: {str(ex)[:80]}", []
+            o, e = f"raised {type(ex).__name__}", []
+            c["_exc"] = str(ex)[:120]
             if c["kind"] == "parse" and _spy_log:
                 c["_seen"] = _spy_log[0]
         obs.append(o)
@@ -1153,6 +1508,7 @@ def check_cases(ctx: Ctx, stream: str, cases: list):
     kept = []
     for c, o, e in zip(cases, obs, exts):
         c.pop("_human", None)
+        c.pop("_exc", None)
         if c.pop("_skip", False):
             ctx.count(f"{stream}:skipped-tokenizer-read-other-markup")
             continue
@@ -1177,7 +1533,8 @@ def check_cases(ctx: Ctx, stream: str, cases: list):
             what = "attribute value differs from the documented rule"
             if zero_defect_class(c, o, want):
                 what += " (a number equal to False assigned through HTMLAttributeDict is dropped)"
-            ctx.violation(what, case=c | {"line": line}, expected=want, observed=o, model=rep, stream=stream)
+            ctx.violation(what, case=c | {"line": line}, expected=want, observed=o, model=rep, stream=stream,
+                          kf=known_finding_class(c, o, want))
             ctx.count(f"{stream}:oracle-fail")
         elif o != rep:
             ctx.corr_disagreements += 1
@@ -1218,15 +1575,27 @@ def run(ctx: Ctx):
         ctx.count("split:sep-is-ws" if c["s"][1].isspace() else "split:sep-not-ws")
     check_cases(ctx, "split-exhaustive", cases)
     r = ctx.rng("split")
-    cases = [{"kind": "split", "s": gen_ws_string(r)} for _ in range(ctx.n(20000, 100000))]
+    cases = [{"kind": "split", "s": gen_ws_string(r)} for _ in range(ctx.n(10000, 100000))]
     cases += [{"kind": "split", "s": s} for s in ["", " ", "\t\n", "a", " a", "a ", "a  b", " ", "a b", "a​b", "\x1c\x1d\x1e\x1f", "a\x85b"]]
     for c in cases:
         ctx.count(f"split:tokens={min(len(c['s'].split()), 4)}")
     check_cases(ctx, "split-generated", cases)
+    # the regex-engine reading of the model (findallNonWs, proved equal to splitWs) against the real findall
+    reps = Driver().ask(["c17 findall " + tok(c["s"]) for c in cases])
+    from bs4.element import nonwhitespace_re
+    for c, rep in zip(cases, reps):
+        got = nonwhitespace_re.findall(c["s"])
+        want = "/".join(tok(t) for t in got) if got else "-"
+        ctx.case(None)
+        if rep != want:
+            ctx.corr_disagreements += 1
+            ctx.violation("model (findallNonWs) and implementation disagree", case=c, expected=oracle(c), observed=want, model=rep,
+                          stream="findall-correspondence", no_failing_input=(want == oracle(c)))
 
     # ---- 2. which attributes are multi-valued: the grid in and around the table --------------------------------------
     cases = []
-    tag_pool = sorted({v for tg in tags for v in case_variants(tg)} | {"p", "div", "DIV", "tr", "span", "", "*", "tD ", " td", "tıd"})
+    tag_pool = sorted({v for tg in tags for v in case_variants(tg)} | {"p", "div", "DIV", "tr", "span", "", "*", "tD ", " td", "tıd",
+                                                                        "STRASSE", "strasse", "Straße", "STRAẞE", "É", "é", "Ǆ", "ǅ"})
     attr_pool = sorted(set(attrs) | {a.upper() for a in attrs} | {"id", "href", "style", "", "*", "class ", "Class", "acceptcharset"})
     for mva in ["default", None] + CUSTOM_MAPS:
         cfg = {"mva": mva}
@@ -1266,7 +1635,7 @@ def run(ctx: Ctx):
                                                                      [["p", "z"], ["s", "2"]], [list(kd), list(vd)]]})
     ctx.exhaustive_parts.append(f"dict: every key form x every grid value x 3 container classes, on an empty and on a populated dictionary ({len(cases)} cases)")
     r = ctx.rng("dict")
-    for _ in range(ctx.n(8000, 40000)):
+    for _ in range(ctx.n(5000, 40000)):
         cases.append({"kind": "dict", "cls": r.choice(["html", "xml", "plain"]),
                       "sets": [[list(r.choice(KEYS)), pick_value(r)] for _ in range(r.randint(2, 5))]})
     for c in cases:
@@ -1303,8 +1672,9 @@ def run(ctx: Ctx):
                           "sets": [[["p", "k"], list(vd)]]})
             cases.append({"kind": "tag", "cfg": None, "isxml": isxml, "name": "a", "attrs": [["k", list(vd)], ["class", ["s", "x y"]]],
                           "acls": "plain", "sets": []})
-            cases.append({"kind": "tag", "cfg": None, "isxml": isxml, "name": "a", "attrs": [["k", list(vd)]],
-                          "acls": "plain", "sets": [], "via": "copy"})
+            for acls in ("plain", "html", "xml"):
+                cases.append({"kind": "tag", "cfg": None, "isxml": isxml, "name": "a", "attrs": [["k", list(vd)]],
+                              "acls": acls, "sets": [], "via": "copy"})
         for dcls in ("absent", "plain", "html", "xml"):
             for mva in ("default", None):
                 cfg = {"mva": mva, "dcls": dcls, "lcls": 0}
@@ -1313,7 +1683,7 @@ def run(ctx: Ctx):
                               "acls": acls, "sets": [[["p", "class"], list(vd)]]})
     ctx.exhaustive_parts.append(f"tag: every grid value through builder-less Tag (html/xml), copy, new_tag under 4 dict classes x default/None ({len(cases)} cases)")
     r = ctx.rng("tag")
-    cases += [gen_tag_case(r) for _ in range(ctx.n(12000, 60000))]
+    cases += [gen_tag_case(r) for _ in range(ctx.n(8000, 60000))]
     for c in cases:
         ctx.count("tag:" + ("builder" if c["cfg"] is not None else c.get("via", "builderless")))
     check_cases(ctx, "tag-grid", cases)
@@ -1338,7 +1708,7 @@ def run(ctx: Ctx):
                     cases.append({"kind": "parse", "cfg": cfg, "name": "a", "attrs": al, "markup": markup_for("a", al)})
     ctx.exhaustive_parts.append(f"parse: every live table entry x every whitespace code point x default/None; 2-4 repeats x {len(ONDUP)} duplicate policies x 3 dict classes")
     r = ctx.rng("parse")
-    cases += [gen_parse_case(r) for _ in range(ctx.n(20000, 100000))]
+    cases += [gen_parse_case(r) for _ in range(ctx.n(12000, 100000))]
     for c in cases:
         ks = [k for k, _ in c["attrs"]]
         ctx.count("parse:dup" if len(set(ks)) < len(ks) else "parse:nodup")
@@ -1347,7 +1717,7 @@ def run(ctx: Ctx):
         ctx.count("parse:dcls=" + c["cfg"].get("dcls", "absent"))
     check_cases(ctx, "parse", cases)
     r = ctx.rng("parse-malformed")
-    cases = [gen_malformed_case(r) for _ in range(ctx.n(8000, 40000))]
+    cases = [gen_malformed_case(r) for _ in range(ctx.n(5000, 40000))]
     check_cases(ctx, "parse-malformed", cases)
     for c in cases:
         ks = [k for k, _ in c["attrs"]]
@@ -1356,17 +1726,32 @@ def run(ctx: Ctx):
 
     # ---- 5b. histories: identical raw values under one builder, lists changed in place ------------------------------
     r = ctx.rng("history")
-    cases = directed_history_cases() + [gen_history_case(r) for _ in range(ctx.n(2500, 12000))]
+    cases = directed_history_cases() + [gen_history_case(r) for _ in range(ctx.n(2000, 12000))]
     for c in cases:
         v = simulate_history(c)[0]
         ctx.count("history:reused-builder" if c["reuse"] else "history:fresh-builders")
         ctx.count("history:inplace-changes-applied", sum(1 for st, ok in zip(c["steps"], v) if ok and st[0] == "mut"))
         ctx.count("history:documents", sum(1 for st in c["steps"] if st[0] == "doc"))
-        ctx.count("history:new_tag+copy", sum(1 for st, ok in zip(c["steps"], v) if ok and st[0] in ("new", "copy")))
+        ctx.count("history:new_tag+copy+ctor", sum(1 for st, ok in zip(c["steps"], v) if ok and st[0] in ("new", "copy", "ctor")))
         ms = [n for n, (st, ok) in enumerate(zip(c["steps"], v)) if ok and st[0] == "mut"]
         if ms and any(st[0] == "doc" for st in c["steps"][ms[0] + 1:]):
             ctx.count("history:document-parsed-after-an-inplace-change")
     check_cases(ctx, "history", cases)
+
+    # ---- 5c. the attribute part of the output, for every formatter; reading and deleting ----------------------------
+    r = ctx.rng("format")
+    cases = []
+    for fmt in FORMATTERS:
+        for vd in LIGHT_GRID + [["s", x] for x in FMT_SAFE_STRS] + [["l", 1, ["it's", 'q"']], ["l", 0, ["x y", ""]]]:
+            cases.append({"kind": "format", "fmt": fmt, "isxml": False, "name": "a", "items": [["k", list(vd)], ["Z", ["s", ""]], ["b", ["n"]]]})
+    ctx.exhaustive_parts.append(f"format: every grid value x every formatter ({len(cases)} cases)")
+    cases += [gen_format_case(r) for _ in range(ctx.n(3000, 20000))]
+    for c in cases:
+        ctx.count("format:fmt=" + c["fmt"])
+    check_cases(ctx, "format", cases)
+    r = ctx.rng("access")
+    cases = [gen_access_case(r) for _ in range(ctx.n(3000, 20000))]
+    check_cases(ctx, "access", cases)
 
     # ---- 6. str.lower table: the model's per-code-point lower against the runtime ------------------------------------
     pts = [c for c in range(sys.maxunicode + 1) if not (0xD800 <= c <= 0xDFFF) and chr(c).lower() != chr(c)]
@@ -1392,7 +1777,7 @@ def run(ctx: Ctx):
 def replay(path):
     v = json.load(open(path))
     c = v["case"]
-    if c.get("kind") in ("split", "multi", "dict", "parse", "tag", "history"):
+    if c.get("kind") in ("split", "multi", "dict", "parse", "tag", "history", "format", "access"):
         c = {k: x for k, x in c.items() if k != "line"}
         def human(cc):
             if cc["kind"] == "dict":
@@ -1420,6 +1805,11 @@ def replay(path):
                         n += 1
                     elif st[0] == "mut":
                         out.append(f"  tag {st[1]}[{st[2]!r}].{st[3]}({'' if st[4] is None else repr(st[4])})   (skipped when not applicable)")
+                    elif st[0] == "del":
+                        out.append(f"  del tag {st[1]}[{st[2]!r}]")
+                    elif st[0] == "ctor":
+                        out.append(f"  tag {n} = Tag(name=tag{st[1]}.name, attrs=tag{st[1]}.attrs, is_xml={bool(st[2])})")
+                        n += 1
                     else:
                         out.append(f"  tag {st[1]}[{mk_key(st[2])!r}] = {st[3]!r}")
                 return "\n".join(out)
